@@ -16,6 +16,7 @@ package nebula
 // (a difference that the statement permits is reported as drift of the machinery, never as a violation).
 
 import (
+	"hash/crc32"
 	"encoding/json"
 	"fmt"
 	"reflect"
@@ -135,6 +136,8 @@ func c35Run(t *testing.T, res *vResult, file string, line []byte, drift *[]any) 
 		for _, h := range v.In.Lhs {
 			statics[h] = []int{c35StaticOf[h]}
 		}
+		lhLogChoice = int(crc32.ChecksumIEEE(line) % 2)
+		res.Hit(fmt.Sprintf("log-level:%d", lhLogChoice))
 		n := lhNewNode(t, lhNodeCfg{Am: v.In.Am, Lhs: v.In.Lhs, Statics: statics})
 		defer n.close()
 		role := map[bool]string{true: "lighthouse", false: "client"}[v.In.Am]
